@@ -176,10 +176,18 @@ def run(chk: Check):
             cfg["model"] = "mutating"
             cfg["ensemble"] = 1 if i % 8 == 2 else cfg["ensemble"]
             chk.count("model:writes-into-theta")
+        if i % 12 == 5:
+            # a model that refuses some of the seeds it is handed (raises): whatever happens then - here: the exception ends the run - happens in the same way,
+            # at the same point and with the same history for every number of jobs
+            cfg["model"] = "raising"
+            cfg["ensemble"] = max(2, cfg["ensemble"])
+            cfg["lineup"] = [(nm, max(bs, 2), cs) for nm, bs, cs in cfg["lineup"]]
+            n = max(n, 4)
+            chk.count("model:raises_for_some_seeds")
         base, rets, _ = twin.run_segments(cfg, [(n, "end")], use_folder=False)
         other = copy.deepcopy(cfg)
         changed = []
-        if rng.random() < 0.6 or cfg.get("model") == "mutating":
+        if rng.random() < 0.6 or cfg.get("model") in ("mutating", "raising"):
             other["n_jobs"] = rng.choice([2, 4]); changed.append("n_jobs")
         if rng.random() < 0.5:
             other["verbose"] = True; changed.append("verbose")
@@ -207,7 +215,8 @@ def run(chk: Check):
         chk.count("sched:" + cfg["sched"])
         if bad:
             chk.fail(f"history depends on {changed}: fields {bad} differ", {"case": {"kind": "pair", "cfg": cfg, "other": other, "n": n, "folder": use_folder}})
-        elif any(a[0].tobytes() != b[0].tobytes() or np.asarray(a[1], dtype=float).tobytes() != np.asarray(b[1], dtype=float).tobytes() for a, b in zip(rets, r)):
+        elif len(rets) != len(r) or any((a != b) if (isinstance(a[0], str) or isinstance(b[0], str)) else
+                                        (a[0].tobytes() != b[0].tobytes() or np.asarray(a[1], dtype=float).tobytes() != np.asarray(b[1], dtype=float).tobytes()) for a, b in zip(rets, r)):
             chk.fail(f"return values depend on {changed}", {"case": {"kind": "pair", "cfg": cfg, "other": other, "n": n, "folder": use_folder}})
     # the result must not depend on what ran earlier in the same process: the same configuration in a fresh interpreter and here, after all
     # the runs above (samplers with process-wide caches, class attributes, module-level state)
